@@ -28,4 +28,6 @@ def run(chk):
     batcher.termination(chk, P, "C06")
     batcher.capacity_hint(chk, P, "C06")
     common.arg_agreement_rule(chk, P, "C06", [("emit_batcher", None)], 3)
+    from . import witness
+    witness.witness_rule(chk, "C06", 5)
     return chk
